@@ -54,7 +54,7 @@ def gen(rng, n):
         step = {'cmd': cmd, 'argv': [], 'listdir': 'sorted'}
         if cmd == 'restore':
             step['argv'] = ['/']
-            step['stdin'] = rng.choice(['0\n', '0-%d\n' % (k - 1), '%d\n' % (k - 1)])
+            step['stdin'] = rng.choice(['0\n', '0-%d\n' % (k - 1), '%d\n' % (k - 1), '0,0\n', '0-%d,0\n' % (k - 1)])     # (an index may be typed twice)
             if rng.random() < 0.35:
                 # --overwrite onto something that is already there (a file, a directory, a link)
                 step['argv'].append('--overwrite')
